@@ -16,10 +16,12 @@ TNext ==
        \/ e.a = "SubBegin" /\ \E r \in SubBegin(s, e.id, e.g) : Obs(e, r) /\ s' = r.s
        \/ e.a = "UnsubBegin" /\ \E r \in UnsubBegin(s, e.id, e.g) : Obs(e, r) /\ s' = r.s
        \/ e.a = "End" /\ s.calls # <<>> /\ Head(s.calls).id = e.id /\ Obs(e, End(s, e.ans)) /\ s' = End(s, e.ans).s
+       \/ e.a = "Cancel" /\ (\E k \in 1 .. Len(s.calls) : s.calls[k].id = e.id) /\ Obs(e, CancelQueued(s, e.id)) /\ s' = CancelQueued(s, e.id).s
        \* start-up scans the table again (nothing in flight): the view is rebuilt from the table
        \/ e.a = "Rescan" /\ s.calls = <<>> /\ s' = MC0(ToTbl(e.tbl), N)
        \* quiet: the host's view probed behaviourally (which groups subscribe() takes as already there, how many fresh ones fit)
-       \/ e.a = "Probe" /\ s.calls = <<>> /\ {e.subs[i] : i \in 1 .. Len(e.subs)} = DOMAIN s.sub /\ e.free = Cardinality(s.avail) /\ UNCHANGED s
+       \/ e.a = "Probe" /\ s.calls = <<>> /\ {e.subs[i] : i \in 1 .. Len(e.subs)} = DOMAIN s.sub /\ e.free = Cardinality(s.avail)
+                        /\ ToTbl(e.tbl) = s.tbl /\ UNCHANGED s
   /\ l' = l + 1 /\ UNCHANGED tid
 TSpec == TInit /\ [][TNext]_tvars
 Owned == IndexOwnedOnce(s, N)
